@@ -1206,7 +1206,7 @@ func runHistory(c *mon.Case) {
 	lastCase := ""
 	for step := 0; step < nops; step++ {
 		prev := m.clone()
-		op := r.PickStr([]string{"rc", "rc", "rcs", "rcs", "upper", "lower", "upper", "lower", "unalign", "clone", "seq.reverse", "seq.complement", "seq.rc-byname"})
+		op := r.PickStr([]string{"rc", "rc", "rcs", "rcs", "upper", "lower", "upper", "lower", "unalign", "clone", "seq.reverse", "seq.complement", "seq.rc-byname", "setalphabet-refused"})
 		label := op
 		cls := func(i int, got string) string { return rcKind(prev.rows[i].Seq, got) }
 		switch op {
@@ -1253,6 +1253,22 @@ func runHistory(c *mon.Case) {
 				return "named-row-" + rcKind(prev.rows[i].Seq, got)
 			}
 			op = "ReverseComplementSequences"
+		case "setalphabet-refused":
+			// a request the container refuses (the "auto" / unknown codes, a number that is no alphabet) changes nothing:
+			// the transforms that follow see the nucleotide alignment they saw before
+			v := r.PickInt([]int{align.BOTH, align.UNKNOWN, 99, -1})
+			before := sb.Alphabet()
+			err := sb.SetAlphabet(v)
+			if err == nil && sb.Alphabet() != before {
+				c.Count("history:SetAlphabet:odd-value-accepted")
+				return
+			}
+			if err != nil && sb.Alphabet() != before {
+				c.Failf("history:SetAlphabet:refused-call-changed-the-alphabet", "step %d after %v: SetAlphabet(%d) returned %q and left alphabet %d, it was %d", step, ops, v, err, sb.Alphabet(), before)
+				return
+			}
+			label = fmt.Sprintf("SetAlphabet(%d)=refused", v)
+			cls = nil
 		case "upper":
 			sb.ToUpper()
 			m.mapRows(refUpper)
@@ -1842,6 +1858,8 @@ func main() {
 	}
 	mon.Floor("long:ReverseComplement", 6)
 	mon.Floor("long:Unalign", 6)
+	mon.Floor("deep:ToUpper", 9)
+	mon.Floor("deep:Unalign", 9)
 	mon.Floor("concurrent:calls", 500)
 	mon.Main("C06", []mon.Sub{
 		{Name: "witness", Quick: len(witnesses), Thorough: len(witnesses), Run: runWitness},
@@ -1855,6 +1873,7 @@ func main() {
 		{Name: "history", Quick: 100000, Thorough: 1500000, Run: runHistory},
 		{Name: "names", Quick: 60000, Thorough: 900000, Run: runNames},
 		{Name: "long", Quick: 6, Thorough: 24, Run: runLong},
+		{Name: "deep", Quick: 9, Thorough: 36, Run: runDeep},
 		{Name: "concurrent", Quick: 64, Thorough: 1200, Race: true, Run: func(c *mon.Case) { conc.Run(c, "strand") }},
 		{Name: "cli", Quick: 376, Thorough: 3200, Serial: true, Run: runCli},
 	})
